@@ -17,11 +17,15 @@ from harness import c05_frags as fr
 
 APIS = ('FST', 'fromsrc', 'parse', 'parse_ast')
 GUESSING = ('all', 'strict')
+CASES = {'shapes': {}, 'bridges': [], 'multiline': []}
 
 
 def load_table(path):
     with open(path) as f:
         d = json.load(f)
+    global CASES
+    CASES = {'shapes': {r['mode']: r for r in d.get('shapes', [])}, 'bridges': d.get('bridges', []),
+             'multiline': d.get('multiline', [])}
     return {r['mode']: r['row'] for r in d['table']}, [tuple(x) for x in d['matrix']]
 
 
@@ -241,6 +245,29 @@ def plan(seed, table, matrix, quick, pool):
     # boundary family: multi-byte text on the first / last line of wrapped fragments x what follows the last element
     for m, text, cat in fr.boundary_cases(rng, quick, set(table) | set(GUESSING)):
         cases.append({'mode': m, 'text': text, 'cat': cat, 'kind': ''})
+
+    # spec-side case tables (ParseCases.tla): every element shape of every mode x every multi-line layout at every
+    # position; <valid element> closer filler opener <valid element> for every bridge.  quick: all named modes, core
+    # bridges complete, the rest sampled; thorough: everything, class-name modes included
+    for m in sorted(table):
+        sh = CASES['shapes'].get(m)
+        if not sh or not sh['shapes'] or table[m]['shape'] not in ('node', 'op', 'list'):
+            continue
+        is_named = m in named
+        if quick and not is_named:
+            continue
+        p_ml = 1.0 if not quick else (1.0 if m in ('Tuple_elt', 'expr', 'pattern') else 0.3)
+        if not is_named:
+            p_ml = 0.15
+        for shp in sh['shapes']:
+            for name, text in fr.multiline_layouts(shp, sh['sep'], CASES['multiline']):
+                if rng.random() < p_ml:
+                    cases.append({'mode': m, 'text': text, 'cat': 'ml:' + name.split('@')[0], 'kind': ''})
+        e1, e2 = sh['shapes'][0], sh['shapes'][1]
+        for name, text, core in fr.bridge_cases(e1, e2, CASES['bridges']):
+            p = (1.0 if core else 0.25) if quick else (1.0 if is_named else (0.5 if core else 0.05))
+            if rng.random() < p:
+                cases.append({'mode': m, 'text': text, 'cat': name, 'kind': ''})
 
     # wrapper escapes generated from each mode's own embedding delimiters
     for m in named:
